@@ -100,7 +100,7 @@ func init() {
 		"for maps with at most 8 entries (one bucket) the 8 start offsets are ALL possible iteration orders; iterations over multi-bucket maps are counted and make the run non-exhaustive",
 		"bounded: S-attr (attestation merges with up to 3 keys), S-life and S-escrow to the stated depth"},
 		Extra: c07Extra, LooseReplay: true,
-		Runs:  []runSpec{{"S-attr", 4, 6, nil}, {"S-meter", 4, 5, nil}, {"S-3bids", 5, 6, nil}, {"S-cert", 2, 3, nil}, {"S-life", 3, 4, nil}, {"S-escrow", 3, 4, nil}}}
+		Runs:  []runSpec{{"S-params", 3, 4, nil}, {"S-attr", 4, 6, nil}, {"S-meter", 4, 5, nil}, {"S-3bids", 5, 6, nil}, {"S-cert", 2, 3, nil}, {"S-life", 3, 4, nil}, {"S-escrow", 3, 4, nil}}}
 	props["C03"] = propSpec{Checker: func() Checker { return chkC03{} }, Assume: common,
 		Runs: []runSpec{{"S-poor", 5, 7, nil}, {"S-escrow", 7, 9, nil}, {"S-leased", 7, 9, nil}, {"S-life", 6, 8, nil}, {"S-collide", 2, 3, nil}}}
 	props["C04"] = propSpec{Checker: func() Checker { return chkC04{} }, Assume: common,
